@@ -23,6 +23,10 @@ type Options struct {
 	Driver   *Driver
 	Factory  TargetFactory
 	Directed bool // prepend the fixed "stop before the frontier is flushed, start three times" cases
+	// clean-stop schedule: NStops runs whose Send context is cancelled at a PRNG-chosen logical
+	// instant in mid-traffic, StopLinks of them at a time (load widens the tool's stop window)
+	NStops    int
+	StopLinks int
 }
 
 // directedCases: the smallest scenario of the monotone-restart clause, one per mode.
@@ -70,12 +74,100 @@ func Explore(run *harness.Run, o Options) {
 		}
 		x.one(c)
 	})
+	x.stops()
+}
+
+// genStopCase: configuration of a clean-stop run: many small units, whole-stream or coarse
+// feeding (the parser runs ahead of the sender), small windows, with and without reply delays.
+func genStopCase(r *rand.Rand, key string) (Case, StopSpec) {
+	c := Case{Key: key}
+	c.Mode = []config.ReplayMode{config.ReplayModeSync, config.ReplayModePipeline, config.ReplayModeParallel, config.ReplayModeSync}[r.Intn(4)]
+	c.Window = []uint{1, 1, 2, 4}[r.Intn(4)]
+	c.NCmds = 16 + r.Intn(24)
+	c.PSelect, c.PTxn, c.PNoise = 0.05, 0.12, 0.06
+	c.MaxTxn = 1 + r.Intn(3)
+	c.Frags = 1
+	c.ExecDelay = []time.Duration{0, 0, 200 * time.Microsecond, time.Millisecond}[r.Intn(4)]
+	c.Base = int64(1000 + r.Intn(1000000))
+	sp := StopSpec{Frags: []int{1, 1, 2, 5}[r.Intn(4)]}
+	if r.Intn(3) == 0 {
+		sp.AtByte = -1 // resolved against the stream length
+	} else {
+		sp.AtRequest = -1
+	}
+	return c, sp
+}
+
+// stops runs the clean-stop schedule: stop in mid-traffic, let the target drain, then the normal
+// chain of fresh starts on the final state, all judged by the same oracle.
+func (x *explorer) stops() {
+	run, o := x.run, x.o
+	if o.NStops == 0 {
+		return
+	}
+	links := o.StopLinks
+	if links < 1 {
+		links = 1
+	}
+	harness.Parallel(o.NStops, links, func(i int) {
+		key := fmt.Sprintf("stop-%d", i)
+		if !run.WantCase(key) {
+			return
+		}
+		r := run.Rand(key)
+		c, spec := genStopCase(r, key)
+		e := NewEnv(r, c, o.Driver, o.Factory)
+		if spec.AtByte < 0 {
+			spec.AtByte = 1 + int64(r.Intn(len(e.Stream.Bytes)-1))
+		} else {
+			spec.AtRequest = 1 + int64(r.Intn(5*len(e.Units)+4))
+		}
+		l, why := e.RunStopped(r, spec)
+		if l == nil {
+			run.Inconclusive("%s: clean-stop run: %s", key, why)
+			return
+		}
+		e.Base = l
+		run.Eval(1)
+		run.Count("clean_stops", 1)
+		run.Seen("modes", string(c.Mode))
+		run.Count("target_requests_logged", l.NReqs)
+		fs, st := e.Judge(l)
+		x.account(st, key, l)
+		x.report(e, l, fs)
+		run.Count("clean_stop_runs_with_unit_gap_sync", int64(st.StopGapsSync))
+		run.Count("clean_stop_runs_with_unit_gap_journal_modes", int64(st.StopGapsFrontier))
+		where := "stream-finished-first"
+		if !l.Completed {
+			run.Count("clean_stops_in_mid_traffic", 1)
+			where = "mid-traffic"
+		}
+		kind := "at-request"
+		if spec.AtByte > 0 {
+			kind = "at-byte"
+		}
+		run.Distinct(fmt.Sprintf("%s|clean-stop|%s|%s|delay=%v|gap=%v", c.Ctx(c.Mode, false), kind, where, c.ExecDelay > 0, st.StopGapsSync+st.StopGapsFrontier > 0))
+		// the next starts on what the stopped run left
+		cuts := l.Cuts()
+		cut := cuts[len(cuts)-1]
+		path := fmt.Sprintf("clean stop: %s; target drained after request %d", spec, l.NReqs)
+		nl, why := e.Restart(r, l, cut, r.Intn(3), nil, path)
+		if nl == nil {
+			run.Inconclusive("%s: %s: %s", key, path, why)
+			return
+		}
+		run.Eval(1)
+		run.Count("restarts", 1)
+		fs, st = e.Judge(nl)
+		x.account(st, key, nl)
+		x.report(e, nl, fs)
+	})
 }
 
 func (x *explorer) report(e *Env, l *RunLog, fs []Finding) {
 	for _, f := range fs {
 		w := map[string]any{"config": e.C.String(), "path": l.Path, "depth": l.Depth, "cut_where": l.CutWhere,
-			"units": unitDump(e), "stream": streamDump(e), "starts": startDump(l), "requests_of_starts": startReqDump(l), "send_error": fmt.Sprint(l.SendErr), "note": l.Note,
+			"stop": l.StopSpec, "units": unitDump(e), "stream": streamDump(e), "starts": startDump(l), "requests_of_starts": startReqDump(l), "send_error": fmt.Sprint(l.SendErr), "note": l.Note,
 			"state_at_cut_bookkeeping_tail": bookTail(l.StartApps, 24), "run_bookkeeping_head": bookHead(l.Apps, 60)}
 		x.run.Violation(f.Sig, e.C.Key, f.What, w)
 	}
